@@ -449,7 +449,13 @@ async def get_outputs(world: World, sim: SimRunner):
         # pushed forward below, but it is faster to just save everything
         # than filter out this data here.
         if sim.outputs is not None:
-            sim.outputs[output_time] = data
+            # Store a copy: the reply of an in-process simulator is the
+            # simulator's own object, which it might fill anew in its
+            # next step. (The cache would then change retroactively.)
+            sim.outputs[output_time] = {
+                eid: dict(attrs) if isinstance(attrs, dict) else attrs
+                for eid, attrs in data.items()
+            }
             if sim.first_output_time is None:
                 sim.first_output_time = output_time
 
